@@ -133,6 +133,15 @@ fn main() {
         ("minus-call-form-raises", "h := freeze (\\x -> -(1, x)); try h(\"s\") catch _ -> \"E\"", "ok s:45"),
         ("unary-minus-folded", "h := freeze (\\x -> [-(3), -(2.5), -x]); h(4)", "ok [-3,f:c004000000000000,-4]"),
         ("iteratee-declaration-leaks", "h := freeze \\ -> ((for (x <- [(y := 5; y)]) 0); y); h()", "ok 5"),
+        // F30 family: the part of a `for` header that runs in the ENCLOSING scope (leading guards, the expression of
+        // the first binding clause; with no binding clause also the body) declares into that scope, freeze treats
+        // the declaration as loop-local
+        ("for-guard-declaration-leaks", "h := freeze \\ -> ((for (if (1)) (y := 5)); y); h()", "ok 5"),
+        ("for-declare-clause-rhs-declaration-leaks", "h := freeze \\ -> ((for (x := (y := 5; y)) 0); y); h()", "ok 5"),
+        // F32: freeze accepts an assignment as soon as the name is in its bound set, also when the declaration
+        // sits in a branch that is not taken; at run time the assignment reaches the OUTER variable, and after
+        // the loop the name is free for freeze again, i.e. resolved at freeze time
+        ("assign-conditionally-declared", "o := 1; h := freeze \\ -> ((for (i <- [1]) ((if (0) (o := 5)); o = 7)); o); [h(), o]", "ok [7,7]"),
         // parameter type annotations are expressions evaluated at call time in the closure's scope: their free
         // variables are resolved at freeze time like the body's (seeded change C17-a2 skipped them when no
         // parameter has a default)
